@@ -150,6 +150,9 @@ def _content(v):
         return ("map", {k: id(x) if isinstance(x, (Rec, list, dict, set)) or z3.is_expr(x) else x for k, x in v.items()})
     if isinstance(v, (set, frozenset)):
         return ("set", sorted(map(repr, v)))
+    if isinstance(v, Rec):
+        # an object the parser owns (a group, a sub-action): what its attributes are bound to, and the content of its containers, one level down
+        return ("rec", {k: (id(x), _content(x) if isinstance(x, (list, tuple, dict, set, frozenset)) else None) if isinstance(x, (Rec, list, dict, set, tuple, frozenset)) or z3.is_expr(x) else x for k, x in v.attrs.items()})
     return None
 
 
@@ -299,3 +302,42 @@ def gcp_raises(ctx, st, exc):
 
 UNITS.append(Unit("C09", "jsonargparse._typehints:ActionTypeHint.get_class_parser", gcp_setup, gcp_post, gcp_raises, max_paths=5000,
                   trusted=["type(parser)(...) builds an empty parser; add_class_arguments / add_function_arguments / link_arguments by contract"]))
+
+
+# instantiate_classes applies the instantiation links through apply_instantiation_links: what has been applied is this call's business
+# (it travels in the call's own copy of the configuration); nothing of it may be kept on the parser or its links group, where a call that
+# failed half-way would leave it for the next one
+from contracts.c16 import UNITS as _C16_UNITS  # noqa: E402
+UNITS += [framed(u, self_key="parser") for u in _C16_UNITS if u.target.endswith("ActionLink.apply_instantiation_links")]
+
+
+# ------------------------------------------------------------------------------------------------ DefaultHelpFormatter.add_usage
+# argparse hands the parser's own list of actions to the formatter (format_usage / format_help / print_usage, i.e. --help and every
+# error reported in exit mode): the usage is written without the link actions, and the list handed in stays the parser's list.
+def au_setup(ctx):
+    layout = [["a", "LINK", "b"], ["LINK", "LINK2"], ["a"], []][ctx.choose(4, "actions")]
+    ctx.classes.add("ActionLink", ["Action"])
+    acts = [Rec("ActionLink" if n.startswith("LINK") else "Action", attrs={"dest": n}) for n in layout]
+    passed = []
+    usage, extra, kw = Rec("usage"), Rec("groups"), {"prefix": Rec("prefix")}
+    calls = {"super": lambda c, a, k: Rec("super()", methods={"add_usage": lambda c2, s2, a2, k2: passed.append((list(a2), dict(k2), a2[1]))})}
+    consts = {"ActionLink": ClassRef("ActionLink")}
+    given = list(acts)
+    return Setup(env={"self": Rec("DefaultHelpFormatter"), "usage": usage, "actions": given, "args": (extra,), "kwargs": kw}, calls=calls, consts=consts,
+                 data=dict(layout=layout, acts=acts, given=given, passed=passed, usage=usage, extra=extra, kw=kw))
+
+
+def au_post(ctx, st, result):
+    d = st.data
+    tag = f"[{d['layout']}]"
+    want = [a for a in d["acts"] if a.cls != "ActionLink"]
+    ok = len(d["passed"]) == 1
+    if ok:
+        a, k, lst = d["passed"][0]
+        ok = len(a) == 3 and a[0] is d["usage"] and a[2] is d["extra"] and k == d["kw"] and len(lst) == len(want) and all(x is y for x, y in zip(lst, want))
+    ctx.oblige("post", "the-usage-is-written-for-the-actions-that-are-not-links,in-their-order,with-the-other-arguments-as-given" + tag, ok)
+    ctx.oblige("frame", "the-list-of-actions-handed-in(argparse passes the parser's own list)-is-not-modified" + tag, len(d["given"]) == len(d["acts"]) and all(x is y for x, y in zip(d["given"], d["acts"])))
+
+
+UNITS.append(Unit("C09", "jsonargparse._formatters:DefaultHelpFormatter.add_usage", au_setup, au_post, None, expect_cover=("return",),
+                  trusted=["argparse.HelpFormatter.add_usage (super()) only reads its arguments"]))
